@@ -1,11 +1,12 @@
 from common import COMMON_TRUST
-from wt_common import WT_LEAN, WT_TRUST, wt_engine
+from wt_common import WT_LEAN, WT_TRUST, wt_engine, e2e_engine, E2E_TRUST
 
 PROP = {
     "generated": [],
     "lean_modules": WT_LEAN + ["SwimVerif.Proofs.UplinkFlow", "SwimVerif.Proofs.ValueSampling",
                                "SwimVerif.Model.ValueLane", "SwimVerif.Proofs.ValueLane"],
     "engines": [
+        e2e_engine("C01"),
         wt_engine("C01"),
         {"name": "vl", "crate": "core", "bin": "sv-vl", "machine": "vl",
          "cases": {"quick": 4000, "thorough": 400000}, "min_shard": 1000},
@@ -22,7 +23,7 @@ PROP = {
     "level_note": "The composition agent loop (dirty_items / item_writers hand-back) + byte pipe + runtime under the "
                   "real tokio scheduler is not in a theorem: it is sampled by the end-to-end rig where present; the "
                   "two layers are proved separately.",
-    "trusted_base": COMMON_TRUST + WT_TRUST,
+    "trusted_base": COMMON_TRUST + WT_TRUST + E2E_TRUST,
     "assumptions": ["the remote stays linked to the lane (no unlinked for it) in the sampling/freshness theorems",
                     "one WriteTaskEvent / one lane operation at a time (single task each)"],
 }
